@@ -16,33 +16,55 @@ Lemma top_limit_with_edns c hint : hint_ok hint ->
   udp_limit (Some c) hint = Ok (text_limit (Some c) hint).
 Proof. apply limit_with_edns. Qed.
 
-Lemma top_limit_is_text : trunc_no_opt_is_min = true ->
-  forall client hint, hint_ok hint -> udp_limit client hint = Ok (text_limit client hint).
-Proof. unfold udp_limit. intros ->. exact limit_is_text_when_fixed. Qed.
-
-Lemma top_limit_no_edns_refuted : trunc_no_opt_is_min = false ->
-  exists h, cfg_min <= h <= cfg_max /\ udp_limit None (Some h) = Ok h /\ text_limit None (Some h) < h.
-Proof. unfold udp_limit. intros ->. exact limit_no_edns_refuted_gen. Qed.
+(* the flag read by T1 is [true] on the current source (fix 2e0728b); were it
+   [false] again, [eq_refl] below no longer type-checks and the check breaks *)
+Lemma top_limit_is_text client hint : hint_ok hint ->
+  udp_limit client hint = Ok (text_limit client hint).
+Proof.
+  assert (F : trunc_no_opt_is_min = true) by reflexivity.
+  unfold udp_limit. rewrite F. apply limit_is_text_when_fixed.
+Qed.
 
 Definition post rq hint m := mandatory_post_gen trunc_no_opt_is_min true rq hint m.
 Definition tmax rq hint := trunc_max (is_some (rq_client rq)) hint.
+Definition hq_len (m : msg) : N := 12 + qs_len (m_qs m).   (* header + questions *)
 
 Lemma top_udp_size_cases rq hint m : mlen m <= 65535 ->
   (mlen m <= tmax rq hint /\ mlen (post rq hint m) = mlen m /\
-   tc_set (m_b2 (post rq hint m)) = tc_set (m_b2 m)) \/
-  (tmax rq hint < mlen m /\ mlen (post rq hint m) = mlen (trunc_form m) /\
+   tc_set (m_b2 (post rq hint m)) = tc_set (m_b2 m) /\
+   m_an (post rq hint m) = m_an m /\ m_ns (post rq hint m) = m_ns m /\ m_ar (post rq hint m) = m_ar m) \/
+  (tmax rq hint < mlen m /\ mlen (post rq hint m) = mlen (trunc_form (tmax rq hint) m) /\
    tc_set (m_b2 (post rq hint m)) = true /\
-   m_an (post rq hint m) = [] /\ m_ns (post rq hint m) = [] /\ m_ar (post rq hint m) = opt_list (m_ar m)).
+   m_an (post rq hint m) = [] /\ m_ns (post rq hint m) = [] /\
+   m_ar (post rq hint m) = trunc_ar (tmax rq hint) m).
 Proof. apply udp_size_cases. Qed.
 
+Lemma top_trunc_three_way max m :
+  (trunc_ar max m = [] /\ mlen (trunc_form max m) = hq_len m) \/
+  (exists o, first_opt (m_ar m) = Some o /\ trunc_ar max m = [RROpt o] /\
+             mlen (trunc_form max m) = hq_len m + opt_len o /\ hq_len m + opt_len o <= max) \/
+  (exists o, first_opt (m_ar m) = Some o /\ trunc_ar max m = [RROpt (min_opt o)] /\
+             mlen (trunc_form max m) = hq_len m + 11 /\
+             max < hq_len m + opt_len o /\ hq_len m + 11 <= max).
+Proof. apply trunc_ar_cases. Qed.
+
 Lemma top_udp_size_bound rq hint m : mlen m <= 65535 ->
-  mlen (trunc_form m) <= tmax rq hint -> mlen (post rq hint m) <= tmax rq hint.
+  (hq_len m <= tmax rq hint -> mlen (post rq hint m) <= tmax rq hint) /\
+  (tmax rq hint < hq_len m ->
+     mlen (post rq hint m) = hq_len m /\ tc_set (m_b2 (post rq hint m)) = true /\
+     m_an (post rq hint m) = [] /\ m_ns (post rq hint m) = [] /\ m_ar (post rq hint m) = []).
 Proof. apply udp_size_bound_gen. Qed.
 
-Lemma top_udp_size_bound_no_opt rq cfg m r q :
-  rq_client rq = None -> m_qs m = [q] -> wf_q q -> hint_ok cfg -> mlen m <= 65535 ->
-  udp_response rq cfg m = Ok r -> mlen r <= trunc_max false cfg.
-Proof. apply udp_size_bound_no_opt. Qed.
+Lemma top_udp_size_bound_one_question rq cfg m r q :
+  m_qs m = [q] -> wf_q q -> hint_ok cfg -> mlen m <= 65535 ->
+  udp_response rq cfg m = Ok r ->
+  mlen r <= text_limit (rq_client rq) cfg.
+Proof.
+  intros Hq Hw Hk Hl E.
+  destruct (udp_size_bound_one_question _ rq cfg m r q Hq Hw Hk Hl E) as (lim & L & B).
+  change (udp_limit_gen trunc_no_opt_is_min) with udp_limit in L.
+  rewrite (top_limit_is_text _ _ Hk) in L. inversion L; subst. exact B.
+Qed.
 
 Lemma top_tc_iff rq hint m : mlen m <= 65535 ->
   tc_set (m_b2 (post rq hint m)) = true <-> (tmax rq hint < mlen m \/ tc_set (m_b2 m) = true).
@@ -56,7 +78,7 @@ Proof. apply dropped_implies_tc. Qed.
 Lemma top_truncated_wellformed rq hint m : mlen m <= 65535 -> rq_id rq < 65536 -> wf_resp m ->
   tmax rq hint < mlen m ->
   tc_set (m_b2 (post rq hint m)) = true /\ m_an (post rq hint m) = [] /\ m_ns (post rq hint m) = [] /\
-  m_ar (post rq hint m) = opt_list (m_ar m) /\ m_qs (post rq hint m) = m_qs m /\
+  m_ar (post rq hint m) = trunc_ar (tmax rq hint) m /\ m_qs (post rq hint m) = m_qs m /\
   parse_min (wire_msg (post rq hint m)) = Some (post rq hint m).
 Proof. apply truncated_wellformed_gen. Qed.
 
